@@ -182,6 +182,26 @@ def check(P: Project, R: Report) -> None:
             R.ob("R2", "exceptional exit has terminated the child", ok, where, f"terminate events {terms}")
     R.ob("R2", "cancellation edges were explored", n_c > 0, ax.where, "no await of __aexit__ is cancellable: analysis is vacuous")
     R.extra["cancelled_exit_states"] = n_c
+    # R6: bounded shutdown — every await of __aexit__ is a prompt one, the terminate routine, or lexically bounded
+    R.rule("R6", "bounded shutdown: every await in __aexit__ is a stream aclose, the task-group exit after its cancel, the (bounded) terminate routine, or lies inside fail_after/move_on_after(<constant>)")
+    PROMPT = (".aclose", ".tg.__aexit__", f"self.{term.name}")
+    for aw in [n for n in walk_local(ax.node) if isinstance(n, ast.Await)]:
+        txt = ast.unparse(aw.value)
+        callee = call_name(aw.value) if isinstance(aw.value, ast.Call) else txt
+        prompt = callee.endswith(PROMPT[:2]) or callee == PROMPT[2]
+        bounded = False
+        for w in [w for w in walk_local(ax.node) if isinstance(w, (ast.With, ast.AsyncWith)) and any(aw is x for x in walk_local(w))]:
+            for it in w.items:
+                c = it.context_expr
+                if isinstance(c, ast.Call) and call_name(c).split(".")[-1] in ("fail_after", "move_on_after") and c.args and isinstance(try_fold(P, ax.module, c.args[0]), (int, float)):
+                    bounded = True
+        if callee.endswith(".tg.__aexit__"):
+            cancels = [c for c in walk_local(ax.node) if isinstance(c, ast.Call) and call_name(c).endswith("cancel_scope.cancel") and c.lineno < aw.lineno]
+            prompt = bool(cancels)
+        R.ob("R6", f"`await {txt[:50]}` cannot block the shutdown", prompt or bounded, f"{rel}:{aw.lineno}",
+             "an unbounded wait before the terminate step: if it never completes (e.g. the writer is blocked on a child that stopped reading), the kill ladder is never reached and leaving the context hangs",
+             sample=f"R6 await {txt[:50]}: " + ("prompt" if prompt else "bounded"))
+
     # wrappers delegate
     tw = P.func("chuk_mcp.transports.stdio.transport", "StdioTransport.__aexit__")
     calls = [c for c in walk_local(tw.node) if isinstance(c, ast.Call) and call_name(c) == "self._client.__aexit__"]
